@@ -16,6 +16,25 @@ pub struct EscCase {
     pub head: Vec<String>,
     /// tokens after the marker
     pub tail: Vec<String>,
+    /// run the whole line one level down: `prog sub <line>`, the described command being `sub`; the global settings
+    /// (dont_delimit_trailing_values, inference, ...) are declared on `prog` only and have to reach `sub`
+    #[serde(default)]
+    pub nested: bool,
+}
+
+/// `prog` with the described command as its only subcommand `sub` (see `EscCase::nested`)
+fn nest(spec: &CmdSpec) -> CmdSpec {
+    let mut inner = spec.clone();
+    inner.name = "sub".to_owned();
+    inner.term_width = None;
+    inner.settings.inherit_globals = true;
+    let mut outer = CmdSpec { name: "prog".to_owned(), term_width: Some(80), ..Default::default() };
+    outer.settings.infer_long_args = spec.settings.infer_long_args;
+    outer.settings.infer_subcommands = spec.settings.infer_subcommands;
+    outer.settings.args_override_self = spec.settings.args_override_self;
+    outer.settings.dont_delimit_trailing_values = spec.settings.dont_delimit_trailing_values;
+    outer.subs.push(inner);
+    outer
 }
 
 pub struct Escape;
@@ -187,16 +206,35 @@ impl Property for Escape {
         }
         let n = t.weighted(&[1, 2, 3, 3, 2, 1, 1, 1, 1]);
         let tail: Vec<String> = (0..n).map(|_| { let v: &Vec<u8> = t.pick(&pool[..]); show_bytes(v) }).collect();
-        EscCase { spec, prefix, head, tail }
+        let nested = t.chance(1, 4);
+        EscCase { spec, prefix, head, tail, nested }
     }
     fn run(&self, case: &EscCase, ctx: &mut Ctx) -> Verdict {
         if case.head.is_empty() {
             return Verdict::Discard("no-unambiguous-spelling");
         }
-        let cmd = match build_checked(&case.spec) {
+        let built = if case.nested { build_checked(&nest(&case.spec)) } else { build_checked(&case.spec) };
+        let cmd = match built {
             Built::Ok(c) => c,
             Built::Invalid(_) => return Verdict::Discard("invalid-config"),
             Built::Panic(p) => return Verdict::Fail(Failure::from_panic(&p)),
+        };
+        // (nested: the line is given to `prog sub`, everything is observed on the matches of `sub`)
+        let line = |argv: &[Vec<u8>]| -> Vec<Vec<u8>> {
+            if case.nested && !argv.is_empty() {
+                let mut v = vec![argv[0].clone(), b"sub".to_vec()];
+                v.extend(argv[1..].iter().cloned());
+                v
+            } else {
+                argv.to_vec()
+            }
+        };
+        let inner = |m: &clap::ArgMatches| -> Option<clap::ArgMatches> {
+            if case.nested {
+                m.subcommand_matches("sub").cloned()
+            } else {
+                Some(m.clone())
+            }
         };
         let head = dec(&case.head);
         let tail = dec(&case.tail);
@@ -206,7 +244,7 @@ impl Property for Escape {
         let mut argv = head.clone();
         argv.extend(tail.iter().cloned());
         let shown: Vec<String> = argv.iter().map(|a| show_bytes(a)).collect();
-        let m = match catch(|| cmd.clone().try_get_matches_from(argv.iter().map(|b| os(b)))) {
+        let m = match catch(|| cmd.clone().try_get_matches_from(line(&argv).iter().map(|b| os(b)))) {
             Err(p) => return Verdict::Fail(Failure::from_panic(&p)),
             Ok(Err(e)) => {
                 return Verdict::fail(
@@ -215,6 +253,9 @@ impl Property for Escape {
                 )
             }
             Ok(Ok(m)) => m,
+        };
+        let Some(m) = inner(&m) else {
+            return Verdict::fail("escape:nested-level-missing", format!("argv {:?}: `prog sub ...` did not reach `sub`", shown));
         };
         let obs = observe(&m);
         ensure!(
@@ -264,7 +305,8 @@ impl Property for Escape {
         }
         // and exactly as in the parse of the prefix alone
         let alone: Vec<Vec<u8>> = head[..head.len() - 1].to_vec();
-        if let Ok(Ok(m0)) = catch(|| cmd.clone().try_get_matches_from(alone.iter().map(|b| os(b)))) {
+        if let Ok(Ok(m0)) = catch(|| cmd.clone().try_get_matches_from(line(&alone).iter().map(|b| os(b)))) {
+            let Some(m0) = inner(&m0) else { return Verdict::Pass };
             let o0 = observe(&m0);
             for a in case.spec.args.iter().filter(|a| !a.is_positional()) {
                 let (x, y) = (o0.arg(&a.id), obs.arg(&a.id));
